@@ -87,6 +87,7 @@ type loopInfo struct {
 	Entry    *State // state at loop entry (before havoc)
 	RangeIt  ssa.Value
 	autoDone bool
+	EntryPhis map[ssa.Value]Val
 }
 
 // FnCtx is the symbolic execution of one function body (top-level or inlined).
@@ -331,6 +332,9 @@ func (fc *FnCtx) wf(st *State, v Term, t types.Type) Term {
 		}
 		var cs []Term
 		for i, f := range si.Fields {
+			if f.Opaque {
+				continue
+			}
 			cs = append(cs, fc.wf(st, fc.TE.FieldOf(t, v, i), f.Type))
 		}
 		return And(cs...)
@@ -745,9 +749,15 @@ func (fc *FnCtx) enterLoop(li *loopInfo, st *State) {
 	}
 	site := fmt.Sprintf("loop%d", li.Ordinal)
 	li.Entry = st.clone()
+	li.EntryPhis = map[ssa.Value]Val{}
+	for _, in := range li.Header.Instrs {
+		if phi, ok := in.(*ssa.Phi); ok {
+			li.EntryPhis[phi] = fc.vals[phi]
+		}
+	}
 	env := fc.specEnv(st)
 	env.AtBlock = li.Header
-	env.Named["loop"] = li.Entry
+	env.Named["loop"], env.LoopPhis = li.Entry, li.EntryPhis
 	// 1. invariants hold on entry
 	for _, cl := range li.Spec.Invariants {
 		parts := fc.evalClauseParts(env, cl)
@@ -764,7 +774,7 @@ func (fc *FnCtx) enterLoop(li *loopInfo, st *State) {
 	// 3. assume invariants
 	env = fc.specEnv(st)
 	env.AtBlock = li.Header
-	env.Named["loop"] = li.Entry
+	env.Named["loop"], env.LoopPhis = li.Entry, li.EntryPhis
 	for _, cl := range li.Spec.Invariants {
 		t := fc.evalClause(env, cl)
 		fc.S.Assume(Implies(st.PC, t), site+" invariant "+cl.Label)
@@ -844,6 +854,17 @@ func (fc *FnCtx) loopFrames(li *loopInfo, cur *State) []namedTerm {
 	nonFresh := fc.loopNonFreshWrites(li)
 	env := fc.specEnv(li.Entry)
 	env.AtBlock = li.Header
+	// the frame's locations are those denoted at loop entry: header phis take their entry values
+	saved := map[ssa.Value]Val{}
+	for phi, v := range li.EntryPhis {
+		saved[phi] = fc.vals[phi]
+		fc.vals[phi] = v
+	}
+	defer func() {
+		for phi, v := range saved {
+			fc.vals[phi] = v
+		}
+	}()
 	locs := fc.locsOfExprs(li.Entry, env, li.Spec.Frame, li.Spec.FrameSrc, fmt.Sprintf("loop %d frame", li.Ordinal))
 	var out []namedTerm
 	for _, n := range sortedHeapNames(ws) {
@@ -948,7 +969,7 @@ func (fc *FnCtx) closeLoop(li *loopInfo, from *ssa.BasicBlock, st *State, cond T
 	st2.PC = cond
 	env := fc.specEnv(st2)
 	env.AtBlock = li.Header
-	env.Named["loop"] = li.Entry
+	env.Named["loop"], env.LoopPhis = li.Entry, li.EntryPhis
 	site := fmt.Sprintf("loop%d", li.Ordinal)
 	s := "preserved"
 	if len(li.BackFrom) > 1 {
@@ -1015,7 +1036,7 @@ func (fc *FnCtx) setEdge(from, to *ssa.BasicBlock, cond Term, st *State) {
 			st2.PC = cond
 			env := fc.specEnv(st2)
 			env.AtBlock = li.Header
-			env.Named["loop"] = li.Entry
+			env.Named["loop"], env.LoopPhis = li.Entry, li.EntryPhis
 			site := fmt.Sprintf("loop%d", li.Ordinal)
 			for _, cl := range li.Spec.Ensures {
 				fc.oblige(st2, site+".ensures", cl.Label, "", fc.evalClause(env, cl), cl.Src)
